@@ -1,6 +1,6 @@
 (* C16 - Carousel late join: a receiver starting at any packet still gets every object. *)
 From FluteV Require Import Model.Partition Model.BlockEnc Model.SenderCtl Model.ObjRecv Model.Recv Spec.RecvSpec Spec.SessionSpec Spec.SenderSpec
-  Spec.C08Spec Proofs.BlockEncProofs Proofs.SenderProofs Proofs.RecvProofs Proofs.SessionProofs Proofs.C08Full Proofs.C02Full Proofs.C01Full.
+  Spec.C08Spec Proofs.BlockEncProofs Proofs.SenderProofs Proofs.RecvProofs Proofs.SessionProofs Proofs.C08Full Proofs.C02Full Proofs.C01Full Proofs.C01Esi.
 Open Scope N_scope.
 
 (* Object-level late-join theorem, PROVED for the No-Code scheme without content encoding
@@ -19,7 +19,7 @@ Theorem C16_late_join_delivers_nocode :
   forall rep raptor_src c content oti E toi max fid files inst md5,
   c_fec c = NoCode -> filedesc_accepts c = true -> c_tlen c = lenN content -> 0 < c_tlen c ->
   (1 <= c_window c)%nat ->
-  c_e c < 65536 -> nocode_esi_fits c = true ->
+  c_e c < 65536 ->
   oti_matches c oti -> fdt_entry_for files inst toi oti (c_tlen c) md5 ->
   writer_accepts E toi -> writes_succeed E toi -> md5_good E content md5 ->
   c_tlen c <= max -> nb_blocks_of oti (c_tlen c) <= 4097 ->
@@ -27,7 +27,7 @@ Theorem C16_late_join_delivers_nocode :
   forall j : nat,
   let pkts := wire_pkts rep raptor_src c content toi in
   delivered E fid files inst toi max content (skipn j pkts ++ pkts).
-Proof. exact late_join_delivered. Qed.
+Proof. exact late_join_delivered'. Qed.
 Print Assumptions C16_late_join_delivers_nocode.
 
 (* more generally: ANY list of genuine packets without the close-object flag that contains every packet of
@@ -37,7 +37,7 @@ Theorem C16_any_superset_of_a_cycle_delivers_nocode :
   forall rep raptor_src c content oti E toi max fid files inst md5,
   c_fec c = NoCode -> filedesc_accepts c = true -> c_tlen c = lenN content -> 0 < c_tlen c ->
   (1 <= c_window c)%nat ->
-  c_e c < 65536 -> nocode_esi_fits c = true ->
+  c_e c < 65536 ->
   oti_matches c oti -> fdt_entry_for files inst toi oti (c_tlen c) md5 ->
   writer_accepts E toi -> writes_succeed E toi -> md5_good E content md5 ->
   c_tlen c <= max -> nb_blocks_of oti (c_tlen c) <= 4097 ->
@@ -45,7 +45,7 @@ Theorem C16_any_superset_of_a_cycle_delivers_nocode :
             Forall (fun q => a_close_obj q = false) l ->
             incl (wire_pkts rep raptor_src c content toi) l ->
   delivered E fid files inst toi max content l.
-Proof. exact superset_delivered. Qed.
+Proof. exact superset_delivered'. Qed.
 Print Assumptions C16_any_superset_of_a_cycle_delivers_nocode.
 
 (* a suffix of a cycle, then a whole LAST transfer (close-object flag on its last packet): same conclusion *)
@@ -53,14 +53,14 @@ Theorem C16_late_join_then_last_transfer_nocode :
   forall rep raptor_src c content oti E toi max fid files inst md5,
   c_fec c = NoCode -> filedesc_accepts c = true -> c_tlen c = lenN content -> 0 < c_tlen c ->
   (1 <= c_window c)%nat ->
-  c_e c < 65536 -> nocode_esi_fits c = true ->
+  c_e c < 65536 ->
   oti_matches c oti -> fdt_entry_for files inst toi oti (c_tlen c) md5 ->
   writer_accepts E toi -> writes_succeed E toi -> md5_good E content md5 ->
   c_tlen c <= max -> nb_blocks_of oti (c_tlen c) <= 4097 ->
   forall pre, Forall (fun q => genuine_pkt oti content q = true) pre ->
               Forall (fun q => a_close_obj q = false) pre ->
   delivered E fid files inst toi max content (pre ++ wire_pkts rep raptor_src c content toi).
-Proof. exact prefix_then_transfer_delivered. Qed.
+Proof. exact prefix_then_transfer_delivered'. Qed.
 Print Assumptions C16_late_join_then_last_transfer_nocode.
 
 (* non-vacuity: the 5-byte, 2-block object of C01/C02 in a carousel with two interleaved blocks
